@@ -647,6 +647,7 @@ func (fr *Frame) applyContract(sp *FuncSpec, fn *ssa.Function, name string, pnam
 		for _, c := range fc.spec.Asserts {
 			if c.Site == fmt.Sprintf("%s#%d", name, occ) || c.Site == name+"#*" {
 				cenv := fr.specEnv(st, nil, nil)
+				cenv.localsFirst = true
 				cenv.lookup = func(n string) (Val, bool) {
 					if v, ok := env.names["$"+n]; ok {
 						return v, true
@@ -666,6 +667,9 @@ func (fr *Frame) applyContract(sp *FuncSpec, fn *ssa.Function, name string, pnam
 	}
 	// requires
 	for _, c := range sp.Requires {
+		if !fc.modeOK(c) {
+			continue
+		}
 		f := env.bool(c.Expr)
 		if fr.isTop && fc.spec != nil {
 			tags := c.Tags
@@ -751,6 +755,9 @@ func (fr *Frame) applyContract(sp *FuncSpec, fn *ssa.Function, name string, pnam
 		}
 	}
 	for _, c := range sp.Ensures {
+		if !fc.modeOK(c) {
+			continue
+		}
 		f := eenv.bool(c.Expr)
 		fc.assume(sImp(guard, f), "contract of "+name+": "+c.Text)
 	}
@@ -861,7 +868,7 @@ func (fr *Frame) builtin(in ssa.Instruction, bi *ssa.Builtin, c *ssa.CallCommon,
 		isNilRes := sAnd(sEq(s.Sub[0].S, "0"), sEq(n, z)) // append(nil, empty...) stays nil
 		rb := sIte(fits, s.Sub[0].S, ref)
 		rb = sIte(isNilRes, "0", rb)
-		res := Val{T: s.T, Sub: []Val{{T: tInt, S: rb}, {T: tInt, S: sIte(fits, s.Sub[1].S, z)}, {T: tInt, S: newLen}, {T: tInt, S: sIte(fits, s.Sub[3].S, sIte(isNilRes, z, sym(nc)))}}}
+		res := Val{T: s.T, Sub: []Val{{T: tRef, S: rb}, {T: tInt, S: sIte(fits, s.Sub[1].S, z)}, {T: tInt, S: newLen}, {T: tInt, S: sIte(fits, s.Sub[3].S, sIte(isNilRes, z, sym(nc)))}}}
 		res = fr.nameVal(res, "append")
 		// element effects: for all leaves of the element type
 		if kindOf(et) == KStruct || kindOf(et) == KArray {
@@ -983,4 +990,14 @@ func (fr *Frame) builtin(in ssa.Instruction, bi *ssa.Builtin, c *ssa.CallCommon,
 
 func zeroLeaf(fc *FnCtx, et types.Type, suffix string) string {
 	return leavesOf(fc.zeroVal(et))[suffix]
+}
+
+func (fc *FnCtx) modeOK(c *Clause) bool {
+	if c.Mode == "" {
+		return true
+	}
+	if fc.m.mode == ModeBV {
+		return c.Mode == "bv"
+	}
+	return c.Mode == "int"
 }
